@@ -55,7 +55,8 @@ def rect_sq_dist(point, rect):
 
 def check_case(seg, rect, as_tuples=False):
     """seg, rect given in the numeric types handed to the library. Returns [(clause, msg)].
-    as_tuples: hand points over as (x, y) tuples instead of [x, y] lists."""
+    as_tuples: hand segment, rectangle and points over as tuples - ((x, y), (x, y)) - instead of
+    lists (both are read-only inputs as far as the statement goes)."""
     desc = f"clip_segment({seg!r}, {rect!r})" + (" [points as tuples]" if as_tuples else "")
     conv = tuple if as_tuples else list
     fseg = tuple((frac(p[0]), frac(p[1])) for p in seg)
@@ -63,8 +64,8 @@ def check_case(seg, rect, as_tuples=False):
     scale = max([F(1)] + [abs(v) for p in fseg + frect for v in p])
     tol2 = (REL_TOL * scale) ** 2
     try:
-        (accept, result), calls = clip_counted([conv(seg[0]), conv(seg[1])],
-                                               [conv(rect[0]), conv(rect[1])])
+        (accept, result), calls = clip_counted(conv([conv(seg[0]), conv(seg[1])]),
+                                               conv([conv(rect[0]), conv(rect[1])]))
     except LoopBudget:
         return [("loop", f"{desc} evaluated the region code more than 200 times (no convergence)")]
     except core.CaseTimeout:
